@@ -441,24 +441,31 @@ func (fx *FX) sprintfD(st *State, c *CallCtx) (Val, bool) {
 		iv := el.(VIface)
 		at := argTypes[ai]
 		ai++
-		if hasStringer(at) {
-			return nil, false
+		unknownPiece := func() {
+			flush()
+			parts = append(parts, fx.fresh("fmtpiece", SSeq))
+		}
+		if _, isIface := at.Underlying().(*types.Interface); isIface || hasStringer(at) {
+			unknownPiece()
+			continue
 		}
 		switch verb {
 		case 's':
 			if b, ok := at.Underlying().(*types.Basic); !ok || b.Info()&types.IsString == 0 {
-				return nil, false
+				unknownPiece()
+				continue
 			}
 			flush()
 			parts = append(parts, sel(sel(st.Hs, iv.Box), num(0)))
 		case 'd':
 			if b, ok := at.Underlying().(*types.Basic); !ok || b.Info()&types.IsInteger == 0 {
-				return nil, false
+				unknownPiece()
+				continue
 			}
 			flush()
 			parts = append(parts, app(SSeq, "dec", sel(sel(st.H, iv.Box), num(0))))
 		default:
-			return nil, false
+			unknownPiece()
 		}
 	}
 	flush()
@@ -506,8 +513,12 @@ func (fx *FX) varargTypes(v ssa.Value, n int) []types.Type {
 		idx, _ := constant.Int64Val(k.Value)
 		for _, r2 := range *ia.Referrers() {
 			if stt, ok := r2.(*ssa.Store); ok {
-				if mi, ok := stt.Val.(*ssa.MakeInterface); ok && int(idx) < n {
-					out[idx] = mi.X.Type()
+				if int(idx) < n {
+					if mi, ok := stt.Val.(*ssa.MakeInterface); ok {
+						out[idx] = mi.X.Type()
+					} else {
+						out[idx] = stt.Val.Type() // an interface value (e.g. an error): rendered as an unknown piece
+					}
 				}
 			}
 		}
